@@ -35,7 +35,8 @@ REQUIRED_REACH = ["negative-det-cells", "non-affine-cells", "default-order", "fa
                   "refined-copy", "renumbered-copy", "degree-beyond-strength-skipped",
                   "equal-size-subdomains-on-one-mesh", "overlapping-tags-union", "overlapping-facet-tags-union",
                   "input:small-units", "input:float32-vertices", "input:non-contiguous-arrays",
-                  "interior-facet-basis-with-order", "every-cell-order", "every-facet-order"]
+                  "interior-facet-basis-with-order", "every-cell-order", "every-facet-order", "facet-basis-default-order",
+                  "interior-facet-basis-default-order", "straight-second-order-copy"]
 ASSUMPTIONS = ["vertex coordinates are taken as the exact rational values of the doubles stored in the mesh",
                "nodal bases of the exact reference use the nearest small rationals (denominator <= 64) to the "
                "element's tabulated reference nodes"]
@@ -546,6 +547,10 @@ def facet_matrices(ctx, k, kind):
     fpoly = monomial_poly(fexp)
     order = 2 * kdeg + 2
     fb = skfem.FacetBasis(mesh, elem(), facets=F, intorder=order)
+    # the same facets with the DEFAULT order (2 * maxdeg >= 2 * kdeg: the edge mass is still exact; the load when its degree
+    # allows) and, for interior facets, through InteriorFacetBasis from either side
+    fb_default = skfem.FacetBasis(mesh, elem(), facets=F)
+    itf = F[np.asarray(mesh.f2t)[1, F] >= 0]
     cb = skfem.CellBasis(mesh, elem())
     DL = np.asarray(cb.doflocs)
     N = cb.N
@@ -579,6 +584,35 @@ def facet_matrices(ctx, k, kind):
     ctx.close("mass-matrix-exact", Mh, M, rtol=1e-11, scale=float(np.abs(M).max()), mech=f"facet-mass:{name}", **tag)
     ctx.close("load-vector-exact", bh, b, rtol=1e-11, scale=float(np.abs(b).max()) + 1e-300, mech=f"facet-load:{name}",
               load=fexp, **tag)
+    Md = skfem.BilinearForm(lambda u, v, w: u * v).assemble(fb_default).toarray()
+    ctx.close("mass-matrix-exact", Md, M, rtol=1e-11, scale=float(np.abs(M).max()), mech=f"facet-mass-default-order:{name}", **tag)
+    if sum(fexp) + kdeg <= 2 * elem().maxdeg:
+        bd = skfem.LinearForm(lambda v, w: poly_fn(fexp)(w) * v).assemble(fb_default)
+        ctx.close("load-vector-exact", bd, b, rtol=1e-11, scale=float(np.abs(b).max()) + 1e-300,
+                  mech=f"facet-load-default-order:{name}", load=fexp, **tag)
+    ctx.reached("facet-basis-default-order")
+    if itf.size:
+        # restricted to the interior facets of F, from either side: the same edge integrals
+        Mi = np.zeros((N, N))
+        keep = set(int(f) for f in itf)
+        for f in F:
+            if int(f) not in keep:
+                continue
+            v0, v1 = (frpoint(mesh.p[:, v]) for v in mesh.facets[:, f])
+            length = float(np.sqrt(float((v1[0] - v0[0]) ** 2 + (v1[1] - v0[1]) ** 2)))
+            g = []
+            for nd in nodes1:
+                xloc = np.array([float(v0[i] + nd[0] * (v1[i] - v0[i])) for i in range(2)])
+                g.append(int(np.nonzero(np.abs(DL - xloc[:, None]).max(axis=0) < tol)[0][0]))
+            for a in range(kdeg + 1):
+                for c in range(kdeg + 1):
+                    Mi[g[a], g[c]] += length * float(mass1[a][c])
+        for side in (0, 1):
+            ib = skfem.InteriorFacetBasis(mesh, elem(), facets=itf.astype(np.int32), side=side)
+            Mih = skfem.BilinearForm(lambda u, v, w: u * v).assemble(ib).toarray()
+            ctx.close("mass-matrix-exact", Mih, Mi, rtol=1e-11, scale=float(np.abs(Mi).max()) + 1e-300,
+                      mech=f"interior-facet-mass-default-order:{name}", side=side, **tag)
+        ctx.reached("interior-facet-basis-default-order")
     ctx.nontrivial(kind, name, "facet-matrices", mc.desc.get("style"))
 
 
@@ -648,6 +682,19 @@ def copies(ctx, k, kind):
                 ctx.close("copies-agree", v3, total, rtol=1e-11, scale=scale, mech=f"refined-same-domain:{kind}",
                           monomial=e, desc=mc.desc)
             ctx.reached("refined-copy")
+    # the same cells described by a straight second-order mesh (isoparametric P2/Q2 geometry): the same integral
+    if kind in ("tri", "quad", "tet", "hex") and mesh.t.shape[1] <= 40:
+        try:
+            m5 = G.mesh_class(kind, 2).from_mesh(type(mesh)(np.asarray(mesh.p, dtype=float), np.asarray(mesh.t)[:nv].astype(np.int64)))
+            v5 = skfem.Functional(poly_fn(e)).assemble(skfem.CellBasis(m5, elem(), intorder=n))
+            ctx.close("copies-agree", v5, total, rtol=1e-11, scale=scale, mech=f"straight-second-order-copy:{kind}", monomial=e,
+                      desc=mc.desc, order=n)
+            ctx.reached("straight-second-order-copy")
+        except Exception as ex:
+            if "Jacobian" in str(ex):
+                ctx.drop("second-order-copy:zero-jacobian")
+            else:
+                raise
     # rigid motion: the moved mesh against its own exact value; the measure is invariant
     R, shift = G.rigid_motion(rng, d)
     # the shift in units of the mesh (a power of two): a mesh of micrometre size moved by O(1) would be a different,
